@@ -31,7 +31,8 @@ RULE = ('histories on the real Bus with raw scripted clients (real handshake and
         'raw peer is big-endian; bus calls carry no SENDER, the true one or another client\'s by turns, and come in the four '
         'header spellings of refcodec.encode_variant; every third peer never says Hello (the bus serves it all the same); '
         'one request in seven is sent fire-and-forget (NO_REPLY_EXPECTED): it counts all the same. Peers end with ConnectionDone, '
-        'ConnectionLost or ConnectionAborted by turns.')
+        'ConnectionLost or ConnectionAborted by turns; peers that skipped Hello may '
+        'say it late, after asking for names.')
 ASSUMPTIONS = ['whether a replaced owner is dropped or re-queued is not stated: the model adopts what the next '
                'ListQueuedOwners shows',
                'a queued (non-owner) client releasing the name is answered RELEASED, as the specification defines '
@@ -95,6 +96,15 @@ def run_history(case):
                     continue
                 ci = sorted(live)[op[1] % len(live)]
                 c = clients[ci]
+                if not getattr(c, 'said_hello', True) and (si + ci) % 3 == 2:
+                    # a peer that skipped Hello says it now, LATE - after it may have asked for names: it is told the unique
+                    # name it already has, and nothing about its names changes
+                    c.said_hello = True
+                    hr = c.call_bus('Hello')
+                    if hr is None or hr['type'] != 2 or hr['body'] != [c.name]:
+                        out.append(Disc('late-hello.reply', '%s: %r (unique name %r)' % (where, hr and (hr['type'], hr['body']), c.name)))
+                        break
+                    c.inbox.remove(hr)
                 if kind == 'request':
                     name = NAMES[op[2] % case['nnames']]
                     before = (_relation(model, ci, name), model.allow.get((name, model.owner(name))))
